@@ -18,6 +18,8 @@
       `unspec` (Spec/JsSemRef: `.local`), and `+` is §11.6.1 as in `JsSemRef.binop .add`
       (string concatenation once one side is a string; ToString of the common primitives only).
     * §12.5  `if` — ToBoolean of the condition.
+    * §12.11  `switch` — the value is compared with `===` to the labels in order; the generator closes
+      every clause with `break` and writes `default:` last, so exactly the first matching clause runs.
     * §12.6.3  `for (var i = 0; i < n; i++) body` — initialise; then, as long as `i < n` (§11.8.1 on
       numbers), run the body and increment (§11.3.1: `i++` on a number).  A run is a finite
       unfolding: `fuel` bounds the number of iterations, running out of it is `unspec`.
@@ -44,6 +46,8 @@ mutual
     | append (buf : Bytes) (e : JsExpr) (ds : List Directive)
     /-- `var x = e;` -/
     | var (x : Bytes) (e : JsExpr)
+    /-- `var x = '';` -/
+    | varEmpty (x : Bytes)
     /-- `if (c1) {…} else if (c2) {…} … [else {…}]` -/
     | ifs (conds : JsConds)
     /-- `var x = list.length;` -/
@@ -54,6 +58,10 @@ mutual
     | forUp (i lim : Bytes) (body : JsStmts)
     /-- `if (lim > 0) {…} else {…}` -/
     | ifPos (lim : Bytes) (body els : JsStmts)
+    /-- `for (var i = init; i < lim; i += incr) {…}` -/
+    | forStep (i lim : Bytes) (init incr : JsExpr) (body : JsStmts)
+    /-- `switch (e) { case v: … break; … default: … break; }` -/
+    | switchS (e : JsExpr) (cases : JsCases)
   inductive JsStmts where
     | nil
     | cons (s : JsStmt) (rest : JsStmts)
@@ -62,6 +70,11 @@ mutual
     /-- the final `else {…}` -/
     | els (body : JsStmts)
     | cons (c : JsExpr) (body : JsStmts) (rest : JsConds)
+  /-- the clauses of a `switch`, every one closed by `break;`, a `default:` clause last -/
+  inductive JsCases where
+    | nil
+    | dflt (body : JsStmts)
+    | cons (labels : List JsExpr) (body : JsStmts) (rest : JsCases)
 end
 
 def JsStmts.append : JsStmts → JsStmts → JsStmts
@@ -109,6 +122,44 @@ def execLoop (body : JEnv → SRes) (i lim : Bytes) : Nat → JEnv → SRes
             execLoop body i lim fuel (setLocal env1 i r)
       else .ok env
 
+/-- `for (…; i < lim; i += incr)` after the initialisation (§12.6.3; `i += e` is `i = i + e`, §11.13.2) -/
+def execLoopStep (body : JEnv → SRes) (i lim : Bytes) (incr : JsExpr) : Nat → JEnv → SRes
+  | 0, _ => .unspec
+  | fuel + 1, env =>
+    withVal (eval env (.bin .lt (.local i) (.local lim))) fun c =>
+      if toBoolean c then
+        (body env).bind fun env1 =>
+          withVal (eval env1 (.local i)) fun v => withVal (eval env1 incr) fun d => withVal (binop .add v d) fun r =>
+            execLoopStep body i lim incr fuel (setLocal env1 i r)
+      else .ok env
+
+/-- `a === b` (§11.9.6) on the primitives of the subset: different types are different; `undefined` and
+    object identity are outside the subset -/
+def strictEq : JVal → JVal → Option Bool
+  | .null, .null => some true
+  | .bool a, .bool b => some (a == b)
+  | .num a, .num b => some (a == b)
+  | .str a, .str b => some (a == b)
+  | .undefined, _ => none
+  | _, .undefined => none
+  | .arr _, _ => none
+  | .obj _, _ => none
+  | _, .arr _ => none
+  | _, .obj _ => none
+  | _, _ => some false
+
+/-- does the switch value equal (===) one of the labels?  The labels are evaluated in order, up to the first hit (§12.11) -/
+def matchLabels (env : JEnv) (v : JVal) : List JsExpr → Option (JOut ⊕ Bool)
+  | [] => some (.inr false)
+  | l :: r =>
+    match eval env l with
+    | .val w =>
+      (match strictEq v w with
+        | some true => some (.inr true)
+        | some false => matchLabels env v r
+        | none => none)
+    | o => some (.inl o)
+
 /-- `list[idx]` on variables -/
 def indexVar (env : JEnv) (list idx : Bytes) : JOut :=
   (eval env (.local list)).bind fun l => (eval env (.local idx)).bind fun i =>
@@ -132,10 +183,14 @@ mutual
     | .appendLit buf t, env => appendTo env buf (.str t)
     | .append buf e ds, env => withVal (applyCalls F ds (eval env e)) fun v => appendTo env buf v
     | .var x e, env => withVal (eval env e) fun v => .ok (setLocal env x v)
+    | .varEmpty x, env => .ok (setLocal env x (.str []))
     | .ifs conds, env => execConds conds env
     | .varLength x list, env => withVal (eval env (.call1 .length (.local list))) fun v => .ok (setLocal env x v)
     | .varIndex x list idx, env => withVal (indexVar env list idx) fun v => .ok (setLocal env x v)
     | .forUp i lim body, env => execLoop (execStmts body) i lim fuel (setLocal env i (.num 0))
+    | .forStep i lim init incr body, env =>
+      withVal (eval env init) fun v => execLoopStep (execStmts body) i lim incr fuel (setLocal env i v)
+    | .switchS e cases, env => withVal (eval env e) fun v => execCases cases v env
     | .ifPos lim body els, env =>
       withVal (eval env (.bin .gt (.local lim) (.num 0))) fun c =>
         if toBoolean c then execStmts body env else execStmts els env
@@ -147,6 +202,16 @@ mutual
     | .els body, env => execStmts body env
     | .cons c body rest, env =>
       withVal (eval env c) fun v => if toBoolean v then execStmts body env else execConds rest env
+  /-- §12.11 with every clause closed by `break` and `default` last: the first clause with a matching label runs -/
+  def execCases : JsCases → JVal → JEnv → SRes
+    | .nil, _, env => .ok env
+    | .dflt body, _, env => execStmts body env
+    | .cons labels body rest, v, env =>
+      match matchLabels env v labels with
+      | some (.inr true) => execStmts body env
+      | some (.inr false) => execCases rest v env
+      | some (.inl .error) => .error
+      | _ => .unspec
 end
 
 end
